@@ -479,6 +479,93 @@ def _right_control(c, answered_forged):
     return None
 
 
+# ---------------------------------------------------------------- cookie-value model (Hs/Hs13Cookie.v)
+
+CK_IMPORTS = "From DtlsV Require Import Hs.Hs13Cookie."
+CK_CLASS = {"absent": "None", "wrong": "(Some 3)", "trunc": "(Some 4)", "long": "(Some 5)", "right": "(Some 1)",
+            "altered": "(Some 1)"}
+
+
+def cookie_case_term(c):
+    """the first two steps of a cookie-leg run as inputs/outputs of the cookie-value model, or None when the run has
+    another shape (faults before the second hello, late forgery, hello verification off)"""
+    if "direct" in c["variant"] or c.get("inject") or c.get("reverse_to"):
+        return None
+    forged = c.get("forge")
+    if forged:
+        if c.get("forge_at"):
+            return None
+    elif (c["mask"] and any(a != "pass" for a in c["mask"])) or c.get("silence_to") or c["interval_ms"] != 1000:
+        return None
+    outs = []           # server emissions grouped by the input that caused them
+    issued = None
+    phase = 0           # 0: before the first answer, 1: answered the first hello, 2: second hello seen
+    cur = None
+    share_ok = None
+    for e in c["events"]:
+        if e["ev"] == "emit" and e["side"] == "server":
+            if cur is None:
+                return None
+            for r in e.get("recs") or []:
+                if r["k"] == "hs" and r["ht"] == 6:
+                    ck = r.get("ck") or "-"
+                    if issued is None and ck != "-":
+                        issued = ck
+                    cls = "None" if ck == "-" else ("(Some 1)" if ck == issued else "(Some 9)")
+                    cur.append("OHRR %s %s" % (cls, cbool(bool(r.get("grp")))))
+                    if share_ok is None:
+                        share_ok = not r.get("grp")
+                elif r["k"] == "alert":
+                    cur.append("OAlertC")
+                elif r["k"] == "hs" and r["ht"] == 2 and r["fo"] == 0:
+                    cur.append("OFlight4")
+        elif e["ev"] in ("deliver", "inject") and e["side"] == "server":
+            if e["ev"] == "inject":
+                if phase < 2:
+                    phase = 2
+                    cur = []
+                    outs.append(cur)
+            elif phase == 0:
+                if cur is None:
+                    cur = []
+                    outs.append(cur)
+                phase = 0
+            elif not forged and phase == 1 and cur is outs[0]:
+                cur = []
+                outs.append(cur)
+                phase = 2
+        elif e["ev"] == "deliver" and e["side"] == "client" and phase == 0 and outs and outs[0]:
+            phase = 1
+        if len(outs) == 2 and outs[1] and (outs[1][-1] in ("OAlertC",) or "OFlight4" in outs[1]):
+            break
+    if len(outs) != 2 or share_ok is None:
+        return None
+    ck2 = CK_CLASS[forged] if forged else "(Some 1)"
+    same = cbool(forged != "altered")
+    ins = "[ICH1 %s; ICH2 %s %s true]" % (cbool(share_ok), ck2, same)
+    obs = clist([clist(sorted(set(o), key=o.index)) for o in outs])
+    return "(true, %s, %s)" % (ins, obs)
+
+
+def cookie_model_check(chk, cases, found):
+    idx = [(i, cookie_case_term(c)) for i, c in enumerate(cases)]
+    idx = [(i, t) for i, t in idx if t]
+    if not idx:
+        return 0, 0
+    bad, err = vlib.coq_mismatches("hs13ck", CK_IMPORTS, "hs13ck_case", "hs13ck_ok", [t for _, t in idx], shard=400, scope="N_scope")
+    if bad is None:
+        chk.broken("correspondence evaluation failed in coqc (Hs/Hs13Cookie.v hs13ck_ok)", err)
+        return len(idx), 0
+    for b in bad[:1]:
+        c = cases[idx[b][0]]
+        m = monitor_cookie(c)
+        chk.finding(SITE_COOKIE, {"monitor": "cookie-model-mismatch", "version": 13},
+                    "first answer and reaction to the second ClientHello differ from the cookie-value model Hs/Hs13Cookie.v: %s [%s]%s" % (
+                        idx[b][1], describe(c), (": " + m) if m else ""),
+                    dict(replay_of(c), correspondence="Hs.Hs13Cookie.hs13ck_ok"), no_input=(m is None and not found))
+    return len(idx), len(bad)
+
+
 # ---------------------------------------------------------------- legs
 
 def _prove(chk, prop, found, regenerate=True):
@@ -593,6 +680,11 @@ def _leg(chk, prop, leg, test, seed_off, monitor, monitor_name, rule, regenerate
     all_cases = cases
     cases = [c for c in cases if len(c["events"]) <= MAX_EVENTS and not c.get("forge")]
     proved = _prove(chk, prop, found, regenerate)
+    n_ck = n_ck_bad = 0
+    if monitor is monitor_cookie and (proved or getattr(chk, "hs13_proof_error", None) is None):
+        okc, _ = vlib.coq_make(["theories/Hs/Hs13Cookie.vo"])
+        if okc:
+            n_ck, n_ck_bad = cookie_model_check(chk, all_cases, found)
     n_bad = 0
     if proved or getattr(chk, "hs13_proof_error", None) is None:
         okm, mo = vlib.coq_make([RUN_TARGET, "theories/Gen/GeneratedHs13.vo"])
@@ -621,7 +713,8 @@ def _leg(chk, prop, leg, test, seed_off, monitor, monitor_name, rule, regenerate
     for c in cases:
         vs[c["variant"]] = vs.get(c["variant"], 0) + 1
     n_timer = sum(len(timer_groups(c, s)) for c in cases for s in ("client", "server"))
-    chk.leg_info(leg, variants=vs, not_accepted_by_model=n_bad, forged_second_hellos_monitor_only=n_forged, monitor=monitor_name, rule=rule,
+    chk.leg_info(leg, variants=vs, not_accepted_by_model=n_bad, forged_second_hellos=n_forged,
+                 cookie_value_model_cases=n_ck, cookie_value_model_mismatches=n_ck_bad, monitor=monitor_name, rule=rule,
                  emitted_datagrams_predicted=sum(1 for c in cases for e in c["events"] if e["ev"] == "emit"),
                  timer_expiries_observed=n_timer, max_completion_ms=max([c["tdone"] for c in cases] or [0]),
                  reached_cap=sum(1 for c in cases for s in ("client", "server")
